@@ -210,6 +210,9 @@ func runC05(c *Ctx) {
 	c.ruleNilNode("C05.nilnode")
 	// "no existing pipeline with that ID and type forbids overwriting": the policy consulted is that entry's, no other
 	c.rulePolicySource("C05.policy")
+	// the options only ever hold a valid policy: RegisterNode decides the carry-over of the in-use
+	// count by a switch over the two valid values (the options' table, shared with C06.carry / C07.opts)
+	c.ruleOptsTable("C05.policy", []string{"WithPipelineRegistrationPolicy", "WithNodeRegistrationPolicy"})
 	ef := c.newEffects()
 	type target struct {
 		recv, name string
